@@ -20,14 +20,15 @@ import (
 func genParams(rt *rapid.T, seedTag string) sim.Params {
 	p := sim.DefaultParams()
 	p.Seed = "c15-" + seedTag
-	nv := rapid.IntRange(1, 7).Draw(rt, "nvals")
+	u := hist.NewU(rt)
+	nv := u.Range(1, 7, "nvals")
 	p.ValPower = nil
 	for i := 0; i < nv; i++ {
 		p.ValPower = append(p.ValPower, p.MinSelfDeleg+int64(i))
 	}
 	p.ExtraVals = 1
 	p.TopCount = 8
-	nw := rapid.IntRange(1, nv).Draw(rt, "nwit")
+	nw := u.Range(1, nv, "nwit")
 	// witnesses: nw distinct validator indexes
 	perm := rapid.Permutation(seq(nv)).Draw(rt, "witperm")
 	p.Witnesses = append([]int{}, perm[:nw]...)
@@ -35,12 +36,12 @@ func genParams(rt *rapid.T, seedTag string) sim.Params {
 	p.NumEth = 3
 	p.Evidence.BlockVotesDiff = 1000 // keep the missed-votes logic away
 	p.PreEthBalances = nil
-	for u := 0; u < 3; u++ {
-		if rapid.IntRange(0, 3).Draw(rt, "preeth") != 0 {
-			p.PreEthBalances = append(p.PreEthBalances, sim.PreBal{User: u, Cur: "ETH", Amount: fmt.Sprint(rapid.IntRange(1, 900000).Draw(rt, "preethamt"))})
+	for i := 0; i < 3; i++ {
+		if u.N(4, "preeth") != 0 {
+			p.PreEthBalances = append(p.PreEthBalances, sim.PreBal{User: i, Cur: "ETH", Amount: fmt.Sprint(u.Range(1, 900000, "preethamt"))})
 		}
-		if rapid.IntRange(0, 2).Draw(rt, "prettc") != 0 {
-			p.PreEthBalances = append(p.PreEthBalances, sim.PreBal{User: u, Cur: "TTC", Amount: fmt.Sprint(rapid.IntRange(1, 900000).Draw(rt, "prettcamt"))})
+		if u.N(3, "prettc") != 0 {
+			p.PreEthBalances = append(p.PreEthBalances, sim.PreBal{User: i, Cur: "TTC", Amount: fmt.Sprint(u.Range(1, 900000, "prettcamt"))})
 		}
 	}
 	return p
@@ -71,30 +72,36 @@ type sub struct {
 	Bytes []byte
 	Name  ethcmn.Hash
 	Truth bool // what the external chain "really" says about it (drives most witnesses' votes)
+	Block int  // generator block number in which it was drawn
 }
 
 type gen struct {
 	rt    *rapid.T
+	u     *hist.U
 	w     *hist.World
 	m     *monitor
 	excl  func(string) bool
 	nonce map[string]uint64
 	subs  []*sub
 	tags  map[string]int
+	block int // number of the block being drawn
 }
 
-func (g *gen) pct(p int, label string) bool { return rapid.IntRange(0, 99).Draw(g.rt, label) < p }
+func (g *gen) pct(p int, label string) bool { return g.u.N(100, label) < p }
+
+// rng draws an approximately uniform integer in [lo, hi] (rapid's own IntRange is biased to small values).
+func (g *gen) rng(lo, hi int, label string) int { return g.u.Range(lo, hi, label) }
 
 func (g *gen) excluded(tag string) bool { return g.excl != nil && g.excl(tag) }
 
 func (g *gen) user(label string) (int, *sim.User) {
-	i := rapid.IntRange(0, len(g.w.G.U.Users)-1).Draw(g.rt, label)
+	i := g.rng(0, len(g.w.G.U.Users)-1, label)
 	return i, g.w.G.U.Users[i]
 }
 
 func (g *gen) ethUser(label string) *sim.EthUser {
 	e := g.w.G.U.Eth
-	return e[rapid.IntRange(0, len(e)-1).Draw(g.rt, label)]
+	return e[g.rng(0, len(e)-1, label)]
 }
 
 func (g *gen) nextNonce(e *sim.EthUser) uint64 {
@@ -105,20 +112,20 @@ func (g *gen) nextNonce(e *sim.EthUser) uint64 {
 
 func (g *gen) remember(kind string, raw []byte, owner int, tx txgen.Tx) {
 	g.subs = append(g.subs, &sub{Kind: kind, Raw: raw, Owner: owner, Bytes: tx.Bytes, Name: txgen.TrackerName(raw),
-		Truth: rapid.IntRange(0, 9).Draw(g.rt, "truth") < 6})
+		Truth: g.rng(0, 9, "truth") < 6, Block: g.block})
 }
 
 func (g *gen) lock() txgen.Tx {
 	ui, u := g.user("u")
 	e := g.ethUser("e")
-	if rapid.IntRange(0, 2).Draw(g.rt, "erc") == 0 {
-		a := big.NewInt(int64(rapid.IntRange(1, 1000000).Draw(g.rt, "amt")))
+	if g.rng(0, 2, "erc") == 0 {
+		a := big.NewInt(int64(g.rng(1, 1000000, "amt")))
 		raw := txgen.ERC20LockRaw(e, g.nextNonce(e), &sim.TestTokenContract, sim.ERCLockContract, a)
 		tx := txgen.ERC20Lock(u, u.Addr, raw, g.w.Fee, g.w.Memo())
 		g.remember("ERC20_LOCK", raw, ui, tx)
 		return tx
 	}
-	a := big.NewInt(int64(rapid.IntRange(1, 1000000).Draw(g.rt, "amt")))
+	a := big.NewInt(int64(g.rng(1, 1000000, "amt")))
 	raw := txgen.EthLockRaw(e, g.nextNonce(e), &sim.LockRedeemContract, a)
 	tx := txgen.EthLock(u, u.Addr, raw, g.w.Fee, g.w.Memo())
 	g.remember("ETH_LOCK", raw, ui, tx)
@@ -126,7 +133,7 @@ func (g *gen) lock() txgen.Tx {
 }
 
 func (g *gen) redeem() txgen.Tx {
-	cur := rapid.SampledFrom([]string{"ETH", "ETH", "TTC"}).Draw(g.rt, "cur")
+	cur := []string{"ETH", "ETH", "TTC"}[g.rng(0, 2, "cur")]
 	// prefer a holder
 	var holders []int
 	for i, u := range g.w.G.U.Users {
@@ -136,7 +143,7 @@ func (g *gen) redeem() txgen.Tx {
 	}
 	ui, u := g.user("u")
 	if len(holders) > 0 && g.pct(85, "holder") {
-		ui = holders[rapid.IntRange(0, len(holders)-1).Draw(g.rt, "hi")]
+		ui = holders[g.rng(0, len(holders)-1, "hi")]
 		u = g.w.G.U.Users[ui]
 	}
 	bal := amt(g.m.led, lkey(u.Addr, cur))
@@ -144,7 +151,7 @@ func (g *gen) redeem() txgen.Tx {
 	tag := "amt-ok"
 	switch {
 	case bal.Sign() > 0 && g.pct(80, "fits"):
-		a = big.NewInt(rapid.Int64Range(1, bal.Int64()).Draw(g.rt, "amt"))
+		a = big.NewInt(int64(g.rng(1, int(bal.Int64()), "amt")))
 		if g.pct(15, "all") {
 			a = new(big.Int).Set(bal)
 			tag = "amt-all"
@@ -152,7 +159,7 @@ func (g *gen) redeem() txgen.Tx {
 	case g.pct(20, "zero"):
 		a, tag = big.NewInt(0), "amt-zero"
 	default:
-		a, tag = new(big.Int).Add(bal, big.NewInt(int64(rapid.IntRange(1, 1000).Draw(g.rt, "over")))), "amt-over"
+		a, tag = new(big.Int).Add(bal, big.NewInt(int64(g.rng(1, 1000, "over")))), "amt-over"
 	}
 	e := g.ethUser("e")
 	var tx txgen.Tx
@@ -176,10 +183,14 @@ func (g *gen) dup() txgen.Tx {
 	if len(g.subs) == 0 {
 		return g.lock()
 	}
-	s := g.subs[len(g.subs)-1-rapid.IntRange(0, min(3, len(g.subs)-1)).Draw(g.rt, "which")]
-	variant := rapid.SampledFrom([]string{"new-tx", "new-tx", "other-account", "trailing-bytes", "byte-identical"}).Draw(g.rt, "variant")
-	if s.Kind == "ERC20_LOCK" && (variant == "new-tx" || variant == "other-account") && g.excluded("ERC20_LOCK:dup-eth-tx") {
-		variant = "byte-identical"
+	s := g.subs[len(g.subs)-1-g.rng(0, min(3, len(g.subs)-1), "which")]
+	variant := []string{"new-tx", "new-tx", "other-account", "trailing-bytes", "byte-identical"}[g.rng(0, 4, "variant")]
+	if s.Kind == "ERC20_LOCK" && variant != "trailing-bytes" && g.excluded("ERC20_LOCK:dup-eth-tx") {
+		// known finding: a second ERC20_LOCK for the same ethereum transaction is accepted. Byte-identical
+		// bytes are only answered from the cache once the first one is committed.
+		if variant != "byte-identical" || s.Block == g.block {
+			variant = "trailing-bytes"
+		}
 	}
 	if (s.Kind == "ETH_REDEEM" || s.Kind == "ERC20_REDEEM") && variant == "trailing-bytes" && g.excluded(s.Kind+":trailing-bytes") {
 		variant = "new-tx"
@@ -192,7 +203,7 @@ func (g *gen) dup() txgen.Tx {
 	case "other-account":
 		ui, _ = g.user("other")
 	case "trailing-bytes":
-		n := rapid.IntRange(1, 40).Draw(g.rt, "ntrail")
+		n := g.rng(1, 40, "ntrail")
 		raw = append(append([]byte{}, s.Raw...), rapid.SliceOfN(rapid.Byte(), n, n).Draw(g.rt, "trail")...)
 	}
 	u := g.w.G.U.Users[ui]
@@ -211,13 +222,13 @@ func (g *gen) dup() txgen.Tx {
 	tx.Tags = []string{"dup-" + variant}
 	if variant == "trailing-bytes" {
 		// if it is accepted it is a tracker of its own that reports can aim at
-		g.subs = append(g.subs, &sub{Kind: s.Kind, Raw: raw, Owner: ui, Bytes: tx.Bytes, Name: txgen.TrackerName(raw), Truth: s.Truth})
+		g.subs = append(g.subs, &sub{Kind: s.Kind, Raw: raw, Owner: ui, Bytes: tx.Bytes, Name: txgen.TrackerName(raw), Truth: s.Truth, Block: g.block})
 	}
 	return tx
 }
 
 func (g *gen) send() txgen.Tx {
-	cur := rapid.SampledFrom([]string{"ETH", "TTC"}).Draw(g.rt, "cur")
+	cur := []string{"ETH", "TTC"}[g.rng(0, 1, "cur")]
 	_, from := g.user("from")
 	for _, u := range g.w.G.U.Users {
 		if amt(g.m.led, lkey(u.Addr, cur)).Sign() > 0 && g.pct(70, "holder") {
@@ -229,7 +240,7 @@ func (g *gen) send() txgen.Tx {
 	bal := amt(g.m.led, lkey(from.Addr, cur))
 	a := big.NewInt(1)
 	if bal.Sign() > 0 {
-		a = big.NewInt(rapid.Int64Range(1, bal.Int64()).Draw(g.rt, "amt"))
+		a = big.NewInt(int64(g.rng(1, int(bal.Int64()), "amt")))
 	}
 	return txgen.Send(from, from.Addr, to.Addr, txgen.Amt(cur, a), g.w.Fee, g.w.Memo())
 }
@@ -256,12 +267,22 @@ func (g *gen) report() txgen.Tx {
 	var name ethcmn.Hash
 	var t *trk
 	truth := true
+	var pending []*sub // drawn for the block under construction: reports may share the block with the lock
+	for _, s := range g.subs {
+		if s.Block == g.block && g.m.trk[s.Name] == nil {
+			pending = append(pending, s)
+		}
+	}
+	var pend *sub
 	switch {
+	case len(pending) > 0 && g.pct(35, "pending"):
+		pend = pending[g.rng(0, len(pending)-1, "pi")]
+		name = pend.Name
 	case len(live) > 0 && g.pct(92, "live"):
-		t = live[len(live)-1-rapid.IntRange(0, min(2, len(live)-1)).Draw(g.rt, "ti")]
+		t = live[len(live)-1-g.rng(0, min(2, len(live)-1), "ti")]
 		name = t.Name
 	case len(g.subs) > 0:
-		s := g.subs[rapid.IntRange(0, len(g.subs)-1).Draw(g.rt, "si")]
+		s := g.subs[g.rng(0, len(g.subs)-1, "si")]
 		name = s.Name
 		t = g.m.trk[name]
 	default:
@@ -280,7 +301,7 @@ func (g *gen) report() txgen.Tx {
 	// reporter
 	var signer *sim.User
 	idx := int64(0)
-	role := rapid.IntRange(0, 99).Draw(g.rt, "role")
+	role := g.rng(0, 99, "role")
 	valOf := func(a keys.Address) *sim.Val {
 		for _, v := range u.Vals {
 			if v.Key.Addr.Equal(a) {
@@ -305,7 +326,7 @@ func (g *gen) report() txgen.Tx {
 			pool = voted
 			tags = append(tags, "repeat")
 		}
-		wi := pool[rapid.IntRange(0, len(pool)-1).Draw(g.rt, "wi")]
+		wi := pool[g.rng(0, len(pool)-1, "wi")]
 		if v := valOf(wit[wi]); v != nil {
 			signer = v.Key
 		}
@@ -324,12 +345,12 @@ func (g *gen) report() txgen.Tx {
 				break
 			}
 		}
-		idx = int64(rapid.IntRange(0, 7).Draw(g.rt, "nwidx"))
+		idx = int64(g.rng(0, 7, "nwidx"))
 		tags = append(tags, "non-witness")
 	default:
 		_, usr := g.user("reporter")
 		signer = usr
-		idx = int64(rapid.IntRange(0, 7).Draw(g.rt, "uidx"))
+		idx = int64(g.rng(0, 7, "uidx"))
 		tags = append(tags, "non-witness")
 	}
 	if signer == nil {
@@ -338,7 +359,7 @@ func (g *gen) report() txgen.Tx {
 		tags = append(tags, "non-witness")
 	}
 	if g.pct(8, "wrongidx") {
-		idx = rapid.SampledFrom([]int64{idx + 1, int64(len(wit)), 0, 1 << 31, 1<<63 - 1}).Draw(g.rt, "idxv")
+		idx = []int64{idx + 1, int64(len(wit)), 0, 1 << 31, 1<<63 - 1}[g.rng(0, 4, "idxv")]
 		tags = append(tags, "idx-other")
 	}
 	success := truth
@@ -348,6 +369,13 @@ func (g *gen) report() txgen.Tx {
 	locker := keys.Address{}
 	if t != nil {
 		locker = t.Owner
+	} else {
+		for _, s := range g.subs {
+			if s.Name == name {
+				locker = g.w.G.U.Users[s.Owner].Addr
+				break
+			}
+		}
 	}
 	if g.pct(10, "liar") && !g.excluded("ETH_REPORT_FINALITY_MINT:locker-other") {
 		_, o := g.user("liar-o")
@@ -360,7 +388,7 @@ func (g *gen) report() txgen.Tx {
 }
 
 func (g *gen) draw() txgen.Tx {
-	k := rapid.IntRange(0, 99).Draw(g.rt, "action")
+	k := g.rng(0, 99, "action")
 	var tx txgen.Tx
 	switch {
 	case k < 14:
